@@ -15,9 +15,9 @@ namespace sim {
 namespace {
 
 enum GenFault { G_NONE, G_ZERO_RAND, G_SK_ZERO, G_SK_OVER, G_ZERO_KEYOBJ, G_BAD_CACHE, G_KEYPAIR_SK_DAMAGED, G_NFAULTS };
-enum SignFault { S_NONE, S_OTHER_KEY, S_NEG_KEY, S_ZERO_KEYPAIR, S_NULL_OUT, S_BAD_CACHE, S_BAD_SESSION, S_ZEROED_SLOT, S_NULL_KEYPAIR, S_NULL_CACHE, S_NULL_SESSION, S_STATIC_CTX, S_NFAULTS };
+enum SignFault { S_NONE, S_OTHER_KEY, S_NEG_KEY, S_ZERO_KEYPAIR, S_NULL_OUT, S_BAD_CACHE, S_BAD_SESSION, S_ZEROED_SLOT, S_NULL_KEYPAIR, S_NULL_CACHE, S_NULL_SESSION, S_STATIC_CTX, S_KEYPAIR_SK_ZEROED, S_KEYPAIR_SK_OVER, S_NFAULTS };
 const char *const GFN[] = {"ok", "zero_secrand", "seckey_zero", "seckey_overflow", "zeroed_key_object", "bad_cache", "keypair_secret_half_damaged"};
-const char *const SFN[] = {"ok", "other_keypair", "negated_keypair", "zeroed_keypair", "null_output", "bad_cache", "bad_session", "zeroed_slot", "null_keypair", "null_cache", "null_session", "static_context"};
+const char *const SFN[] = {"ok", "other_keypair", "negated_keypair", "zeroed_keypair", "null_output", "bad_cache", "bad_session", "zeroed_slot", "null_keypair", "null_cache", "null_session", "static_context", "keypair_secret_half_erased", "keypair_secret_half_overflows"};
 
 bool all_zero(const void *p, size_t n) { const uint8_t *b = (const uint8_t *)p; for (size_t i = 0; i < n; i++) if (b[i]) return false; return true; }
 
@@ -176,6 +176,9 @@ static void nonce_api_execute(const Plan &p, const ExecOpts &, Result &r) {
             if (f == S_NEG_KEY) kidx = key == 0 ? 2 : 1 - key;   // only key 0 has a negated twin in the pool
             secp256k1_keypair kparg = kp[kidx];
             if (f == S_ZERO_KEYPAIR) memset(&kparg, 0, sizeof kparg);
+            // the keypair was damaged where it was kept: the public half is intact (and still the key the nonce is bound to), the secret half is not a key
+            if (f == S_KEYPAIR_SK_ZEROED) memset(kparg.data, 0, 32);
+            if (f == S_KEYPAIR_SK_OVER) memset(kparg.data, 0xff, 32);
             secp256k1_musig_partial_sig out, out0; memset(&out, 0x77, sizeof out); out0 = out;
             secp256k1_musig_partial_sig *volatile outp = f == S_NULL_OUT ? NULL : &out;
             const secp256k1_musig_keyagg_cache *volatile carg = f == S_BAD_CACHE ? &bad_cache : (f == S_NULL_CACHE ? NULL : &cache);
